@@ -71,6 +71,14 @@ class HarnessError(Exception):
     pass
 
 
+class EnoughViolations(Exception):
+    """raised by Ctx.violation once a run has collected so many violations that going on adds
+    nothing (and, on a badly broken tree, may take unboundedly long)"""
+
+
+VIOLATION_CAP = 3000
+
+
 class Ctx:
     def __init__(self, pid, tier, seed, shard=(0, 1)):
         self.pid, self.tier, self.seed, self.shard = pid, tier, seed, shard
@@ -123,6 +131,12 @@ class Ctx:
     def violation(self, mech, case, expected=None, got=None, detail=None):
         self.violation_count += 1
         self.mech_counts[mech] += 1
+        self._record(mech, case, expected, got, detail)
+        if self.violation_count == VIOLATION_CAP:
+            self.notes["stopped_early"] = "violation cap %d reached" % VIOLATION_CAP
+            raise EnoughViolations()
+
+    def _record(self, mech, case, expected, got, detail):
         if sum(1 for v in self.violations if v["mech"] == mech) < 5 and \
                 len(self.violations) < MAX_VIOLATION_RECORDS:
             self.violations.append({
@@ -275,6 +289,8 @@ def finish(ctx, mod):
     from . import obs
     if obs.BUILD["calls"]:
         cov["values_built_cold_warm"] = [obs.BUILD["calls"] - obs.BUILD["warm_builds"], obs.BUILD["warm_builds"]]
+        cov["construction_route_variations"] = {k: obs.BUILD[k] for k in (
+            "plain_str_runs", "shared_run_objects", "interrupted_views", "interrupts_fired")}
     cov.update(jsonable(ctx.notes))
     ev = {
         "property_id": ctx.pid, "tier": ctx.tier, "seed": ctx.seed, "level": mod.LEVEL,
@@ -364,7 +380,10 @@ def main(mod, pid, argv):
             print("%s replay: case holds on the current tree" % pid)
             return 0
         if a.shard_out:
-            mod.run(ctx)
+            try:
+                mod.run(ctx)
+            except EnoughViolations:
+                pass
             ctx.dump_shard(a.shard_out)
             return 0
         nshards = getattr(mod, "SHARDS", {}).get(a.tier, 1)
@@ -372,9 +391,12 @@ def main(mod, pid, argv):
             run_witnesses(ctx, mod)
             run_sharded(ctx, mod, nshards, getattr(mod, "TIMEOUT", {}).get(a.tier, 3000))
         else:
-            run_witnesses(ctx, mod)
-            mod.run(ctx)
-        if getattr(mod, "SUITE_MONITOR", False):
+            try:
+                run_witnesses(ctx, mod)
+                mod.run(ctx)
+            except EnoughViolations:
+                pass
+        if getattr(mod, "SUITE_MONITOR", False) and ctx.violation_count < VIOLATION_CAP:
             # the repository's own tests and doctests as one more workload, judged by the
             # monitors attached to the real functions (rv/monitors.py)
             from . import suite
